@@ -664,6 +664,8 @@ func Run(r *evid.Run) {
 	r.Bound("cycles: %d cyclic Go values, each marshaled 3 ways in a child process", len(cycles))
 	misuse(r)
 	coderStates(r)
+	userErrors(r)
+	errorRendering(r)
 	c17.MarshalPolicingPanics(r, "c20") // user-code scripts (incl. nested delegation): no panic
 	// sweep
 	lens := views.ForTier(r.Tier).Minus(1)
